@@ -12,6 +12,14 @@ keys/explain/validate are the union/conjunction over the members; `(a == b) ==
 (restrict(o1, keys1) == restrict(o2, keys2))` with an independent `restrict`; repr shows exactly the
 restricted dictionary; inputs are never mutated and an instance does not change when the caller
 later writes into the dictionary it was built from.
+
+Histories (every tier, see the HISTORIES section): families of related dataset classes (a base, classes
+derived from it that add / redefine members, two levels, siblings) with keys / validate / explain /
+instantiate / repr / == on the different classes interleaved in every order, given fresh dictionaries,
+one dictionary object reused unchanged, and one dictionary edited in place between the calls.  The
+outcome of an operation is a function of (class, dictionary contents): every step must equal the same
+operation done first on a freshly built copy of the family with a fresh, equal dictionary, the union
+over the class's OWN members asked alone, and the model's answer.  Counts: coverage.histories.
 """
 import sys
 from pathlib import Path
@@ -73,6 +81,11 @@ RUNNER = CODEC + r'''
 import sys, os, json, ast, logging
 sys.path.insert(0, os.environ["VERIF_REPO_PATH"])
 logging.disable(logging.CRITICAL)
+# every Option evaluation copies os.environ (confectioner's resolve offers it to templates as `@env`); no generated
+# value contains a template, so the copy is pure cost: keep the environment of this process small
+for _k in list(os.environ):
+    if _k not in ("VERIF_REPO_PATH", "PYTHONPATH", "PYTHONHASHSEED", "PATH", "HOME"):
+        del os.environ[_k]
 from labrea import dataset, datasetclass, Option
 from labrea.types import Evaluatable
 from labrea.exceptions import EvaluationError, KeyNotFoundError
@@ -283,13 +296,165 @@ def run(case):
         extra["isolated" + j] = iso
     return {"obs": obs, "extra": extra}
 
+# ---- histories over a family of related dataset classes (see the HISTORIES section of the harness)
+import copy as _copy
+
+def build_family(fc):
+    """classes in declaration order (a parent precedes its children); effs[c]: attr -> (member object, defining class)"""
+    classes, effs = [], []
+    for c in fc["classes"]:
+        p = c["parent"]
+        bases = (classes[p],) if p is not None else ()
+        cls, oo = plain_class(c["name"], bases, c["own"], fc.get("build", "type"))
+        eff = dict(effs[p]) if p is not None else {}
+        for n, m in oo.items():
+            eff[n] = (m, len(classes))
+        if c.get("deco", True):
+            cls = datasetclass(cls)
+        classes.append(cls)
+        effs.append(eff)
+    return classes, effs
+
+def do_op(k, C, o, names):
+    if k == "inst":
+        try:
+            inst = C(o)
+            attrs = []
+            for n in names:
+                v = getattr(inst, n)
+                attrs.append([n, {"unevaluated": True} if isinstance(v, Evaluatable) else enc(v)])
+            return {"attrs": attrs, "repr": repr(inst)}, inst
+        except Exception as e:
+            return {"err": canon_exc(e)}, None
+    if k == "keys":
+        return outcome(lambda: sorted(C.keys(o))), None
+    if k == "explain":
+        return outcome(lambda: sorted(C.explain(o))), None
+    return outcome(lambda: C.validate(o), ok=lambda _: "ok"), None
+
+def edit_in_place(o, op):
+    segs = op["key"].split(".")
+    if op["op"] == "set":
+        for s in segs[:-1]:
+            if not isinstance(o.get(s), dict):
+                o[s] = {}
+            o = o[s]
+        o[segs[-1]] = dec(op["v"])
+    else:
+        try:
+            for s in segs[:-1]:
+                o = o[s]
+            del o[segs[-1]]
+        except (KeyError, TypeError):
+            pass
+
+# what a class answers when it is asked FIRST THING: a freshly built copy of the whole family, a fresh dictionary.
+# One fresh family per (operation, class, contents); shared between the histories of one family.
+REF, REFEQ, MEM = {}, {}, {}
+NEW = {"refs": 0}
+
+def reference(fk, fc, k, c, snapj):
+    key = (fk, k, c, snapj)
+    if key not in REF:
+        F, effs = build_family(fc)
+        REF[key] = do_op(k, F[c], dec(json.loads(snapj)), sorted(effs[c]))[0]
+        NEW["refs"] += 1
+    return REF[key]
+
+def reference_eq(fk, fc, ca, sa, cb, sb):
+    key = (fk, ca, sa, cb, sb)
+    if key not in REFEQ:
+        F, _ = build_family(fc)
+        try:
+            a = F[ca](dec(json.loads(sa)))
+            b = F[cb](dec(json.loads(sb)))
+            REFEQ[key] = {"eq": bool(a == b), "ne": bool(a != b)}
+        except Exception:
+            REFEQ[key] = None
+        NEW["refs"] += 1
+    return REFEQ[key]
+
+def members_alone(fk, fc, snapj):
+    """every member object of a freshly built family, asked on its own with fresh dictionaries; tag 'definingclass:attr'"""
+    key = (fk, snapj)
+    if key not in MEM:
+        _, effs = build_family(fc)
+        snap = json.loads(snapj)
+        out = {}
+        for eff in effs:
+            for n, (m, i) in eff.items():
+                tag = "%d:%s" % (i, n)
+                if tag in out or not isinstance(m, Evaluatable) or n.startswith("__"):
+                    continue
+                out[tag] = {
+                    "ev": outcome(lambda: m.evaluate(dec(snap)), ok=lambda v: {"ok": enc(v)}),
+                    "keys": outcome(lambda: sorted(m.keys(dec(snap)))),
+                    "explain": outcome(lambda: sorted(m.explain(dec(snap)))),
+                    "validate": outcome(lambda: m.validate(dec(snap)), ok=lambda _: "ok"),
+                }
+        MEM[key] = out
+    return MEM[key]
+
+def run_hist(fc):
+    fk = json.dumps([fc.get("build", "type"), fc["classes"]], sort_keys=True)
+    NEW["refs"] = 0
+    H, effs = build_family(fc)
+    names = [sorted(e) for e in effs]
+    shared = fc["mode"] == "shared"
+    content = [dec(s) for s in fc["slots"]]      # the harness's own shadow of each dictionary's contents
+    live = [dec(s) for s in fc["slots"]]         # shared mode: the ONE object handed to every call on that slot
+    snaps, snap_ix = [], {}
+    def snap_of(s):
+        j = json.dumps(enc(content[s]))
+        if j not in snap_ix:
+            snap_ix[j] = len(snaps)
+            snaps.append(j)
+        return j
+    regs = {}
+    steps = []
+    for op in fc["ops"]:
+        k = op["op"]
+        if k in ("set", "del"):
+            edit_in_place(content[op["s"]], op)
+            edit_in_place(live[op["s"]], op)
+            steps.append({"k": k})
+        elif k in ("keys", "explain", "validate", "inst"):
+            c, s = op["c"], op["s"]
+            sj = snap_of(s)
+            o = live[s] if shared else _copy.deepcopy(content[s])
+            got, inst = do_op(k, H[c], o, names[c])
+            if k == "inst":
+                regs[op["r"]] = (inst, c, sj)
+            steps.append({"k": k, "c": c, "si": snap_ix[sj], "got": got, "ref": reference(fk, fc, k, c, sj),
+                          "mut": json.dumps(enc(o)) != sj})
+        elif k == "repr":
+            inst, c, sj = regs.get(op["r"], (None, None, None))
+            ref = None
+            if sj is not None:
+                ref = reference(fk, fc, "inst", c, sj)
+                ref = ref.get("repr") if isinstance(ref, dict) else None
+            steps.append({"k": k, "c": c, "si": snap_ix.get(sj), "got": None if inst is None else repr(inst), "ref": ref})
+        elif k == "eq":
+            ia, ca, sa = regs.get(op["a"], (None, None, None))
+            ib, cb, sb = regs.get(op["b"], (None, None, None))
+            got = ref = None
+            if ia is not None and ib is not None:
+                got = {"eq": bool(ia == ib), "ne": bool(ia != ib)}
+            if sa is not None and sb is not None:
+                ref = reference_eq(fk, fc, ca, sa, cb, sb)
+            steps.append({"k": k, "c": ca, "cb": cb, "si": snap_ix.get(sa), "sib": snap_ix.get(sb), "got": got, "ref": ref})
+        else:
+            raise ValueError(k)
+    return {"steps": steps, "snaps": [json.loads(j) for j in snaps],
+            "mem": [members_alone(fk, fc, j) for j in snaps], "new_refs": NEW["refs"]}
+
 for line in sys.stdin:
     line = line.strip()
     if not line:
         continue
     case = json.loads(line)
     try:
-        print(json.dumps(run(case)))
+        print(json.dumps(run_hist(case) if case.get("hist") else run(case)))
     except Exception as e:
         print(json.dumps({"runner_error": type(e).__name__ + ": " + str(e)[:300]}))
 '''
@@ -724,6 +889,577 @@ def oracle_failing(cases):
     return [bool(oracle(c, i)) for c, i in zip(cases, impl)]
 
 
+# ----------------------------------------------------------------------------- HISTORIES over families of related classes
+#
+# The property (and the model: `DatasetClass` has no state) make the outcome of keys / validate / explain /
+# instantiation / repr / == a function of (class, dictionary CONTENTS) only.  A family is a base dataset class and
+# classes derived from it (adding members, redefining members, both; two levels; siblings); a history is a sequence of
+# operations on the DIFFERENT classes of one family, interleaved (base first, derived first, alternating, siblings,
+# whole chain up and down), handed either fresh dictionary objects each time or ONE dictionary object reused by every
+# call - unchanged, or edited in place between the calls.  Three oracles per step:
+#   history   : the outcome equals the same operation performed FIRST THING on a freshly built copy of the family with
+#               a fresh dictionary of equal contents (computed by the runner: `reference`);
+#   property  : keys / explain / validate of a class are the union / conjunction over ITS OWN effective members asked
+#               alone; attributes are the member-wise evaluations; repr shows, and == compares, the contents restricted
+#               to those keys; no call changes the dictionary;
+#   model     : the Lean model's answer for (flattened class, contents).
+
+HOPS = ["keys", "validate", "explain", "inst"]
+VARIANTS = [(True, "type"), (False, "type"), (True, "exec"), (False, "exec")]   # (derived classes decorated again?, build)
+SHAPES = ["add", "redef", "both", "two", "sib", "sib2"]
+IRRELEVANT = ["Z", "W", "ZZ.W"]        # heads that no pool key starts with
+EDIT_VALUES = [2, 3, 5, 7, -4, "s", "tu", "Hello", None, True, [2, "s"]]
+
+
+def family_(name, shape, classes, deco=True, build="type"):
+    """classes: [(name, parent index or None, own members)]; the root is always decorated"""
+    cs = []
+    for cname, parent, own in classes:
+        cs.append({"name": cname, "parent": parent, "deco": True if parent is None else deco,
+                   "own": [[m[0], m[1], (m[2] if len(m) > 2 else True)] for m in own]})
+    return {"name": name, "shape": shape, "build": build, "classes": cs}
+
+
+def fixed_families(variant_of):
+    fams = [
+        ("add", [("Base", None, [("value", ds(opt("INPUT.X"), opt("INPUT.SCALE", 3, True))), ("unit", const("m"))]),
+                 ("Derived", 0, [("label", opt("REPORT.LABEL"))])]),
+        ("redef", [("Base", None, [("a", opt("A.X")), ("k", const(5)), ("q", opt("Q", "dflt", True))]),
+                   ("Derived", 0, [("a", opt("B")), ("k", opt("A.Y", 7, True))])]),
+        ("both", [("Base", None, [("a", opt("A.X")), ("q", opt("Q", "dflt", True))]),
+                  ("Derived", 0, [("b", opt("B.Y")), ("q", const("fixed"), False), ("a", ds(opt("A.X"), opt("S.T.U")))])]),
+        ("two", [("Base", None, [("a", opt("A.X"))]),
+                 ("Mid", 0, [("m", opt("S.T.U"))]),
+                 ("Leaf", 1, [("zed", opt("S.T")), ("a", ds(opt("A.Y")))])]),
+        ("sib", [("Base", None, [("a", opt("A.X")), ("n", opt("B", 2, True))]),
+                 ("Left", 0, [("b", opt("Q"))]),
+                 ("Right", 0, [("c", opt("S.T.U")), ("a", opt("A"))])]),
+        ("sib2", [("Base", None, [("a", opt("A.X"))]),
+                  ("Left", 0, [("b", opt("B.Y"))]),
+                  ("Right", 0, [("c", opt("Q"))]),
+                  ("Leaf", 1, [("e", opt("S.T")), ("b", opt("B"))])]),
+    ]
+    out = []
+    for i, (shape, classes) in enumerate(fams):
+        for v in variant_of(i):
+            deco, build = VARIANTS[v]
+            out.append(family_("fixed-%s-%d" % (shape, v), shape, classes, deco, build))
+    return out
+
+
+def spec_keys(s):
+    if s["k"] == "opt":
+        return [s["key"]]
+    if s["k"] == "ds":
+        return [a["key"] for a in s["args"]]
+    return []
+
+
+def fam_flatten(fc, c):
+    """effective members of class c (nearest definition along the parent chain): attr -> (spec, defining class)"""
+    chain = []
+    while c is not None:
+        chain.append(c)
+        c = fc["classes"][c]["parent"]
+    d = {}
+    for i in reversed(chain):
+        for n, s, _ in fc["classes"][i]["own"]:
+            d[n] = (s, i)
+    return d
+
+
+def fam_keys(fc, c):
+    return sorted({k for s, _ in fam_flatten(fc, c).values() for k in spec_keys(s)})
+
+
+def ancestors(fc, c):
+    out = []
+    c = fc["classes"][c]["parent"]
+    while c is not None:
+        out.append(c)
+        c = fc["classes"][c]["parent"]
+    return out
+
+
+def gen_family(rng, shape, n):
+    taken_names, taken_keys = set(), set()
+
+    def added(k):
+        ms = []
+        for j in range(k):
+            nm = rng.choice([x for x in NAME_POOL if x not in taken_names])
+            taken_names.add(nm)
+            m = gen_member(rng)
+            if j == 0:      # at least one added member reads a key of its own
+                fresh = [x for x in KEY_POOL if x not in taken_keys]
+                key = rng.choice(fresh or KEY_POOL)
+                m = rng.choice([opt(key), opt(key), opt(key, gen_val(rng, 1), True), ds(opt(key), opt(rng.choice(KEY_POOL), 3, True))])
+            taken_keys.update(spec_keys(m))
+            ms.append((nm, m, rng.random() < 0.7))
+        return ms
+
+    def redefined(eff_names, k):
+        ms = []
+        for nm in rng.sample(sorted(eff_names), min(k, len(eff_names))):
+            m = gen_member(rng)
+            taken_keys.update(spec_keys(m))
+            ms.append((nm, m, rng.random() < 0.6))
+        return ms
+
+    def derive(kind, eff_names):
+        own = []
+        if kind in ("add", "both"):
+            own += added(rng.randint(1, 2))
+        if kind in ("redef", "both"):
+            own += redefined(eff_names, rng.randint(1, 2))
+        return own
+
+    base = added(rng.randint(2, 3))
+    names0 = {m[0] for m in base}
+    plan = {"add": [(0, "add")], "redef": [(0, "redef")], "both": [(0, "both")],
+            "two": [(0, rng.choice(["add", "both"])), (1, rng.choice(["add", "redef", "both"]))],
+            "sib": [(0, "add"), (0, "both")],
+            "sib2": [(0, "add"), (0, rng.choice(["add", "redef"])), (1, "both")]}[shape]
+    classes = [("Base", None, base)]
+    eff = [set(names0)]
+    for j, (parent, kind) in enumerate(plan):
+        own = derive(kind, eff[parent])
+        classes.append(("D%d" % (j + 1), parent, own))
+        eff.append(eff[parent] | {m[0] for m in own})
+    deco, build = VARIANTS[rng.randrange(4)]
+    return family_("random-%s-%d" % (shape, n), shape, classes, deco, build)
+
+
+def full_options(rng, keys):
+    """every key present (prefixes first, so that a deeper key turns its section into a dictionary)"""
+    o = {}
+    for k in sorted(keys, key=lambda k: (k.count("."), k)):
+        v = gen_val(rng)
+        set_nested(o, k, v)
+    for k in rng.sample(IRRELEVANT, rng.randint(1, 2)):
+        set_nested(o, k, gen_val(rng))
+    return o
+
+
+def get_nested(o, key):
+    for s in key.split("."):
+        if not isinstance(o, dict) or s not in o:
+            return KeyError
+        o = o[s]
+    return o
+
+
+def leafy(cands, allkeys):
+    """prefer keys that are not a proper prefix of another key of the family (an edit there destroys nothing else)"""
+    good = [k for k in cands if not any(a.startswith(k + ".") for a in allkeys)]
+    return good or list(cands)
+
+
+def pick_edit(rng, fc, seq, kind, o, allkeys, vals=()):
+    """(key, value) for an edit of kind added / base / irrelevant / same, relative to the last class of `seq`;
+    `vals`: the family's few edit values (tried first, so that the histories of one family meet the same contents)"""
+    y, x0 = seq[-1], seq[0]
+    ky, kx = fam_keys(fc, y), fam_keys(fc, x0)
+    if kind == "irrelevant":
+        key = rng.choice(IRRELEVANT)
+    elif kind == "added":
+        key = rng.choice(leafy([k for k in ky if k not in kx] or ky or allkeys or ["Z"], allkeys))
+    else:
+        key = rng.choice(leafy([k for k in ky if k in kx] or kx or ky or allkeys or ["Z"], allkeys))
+    cur = get_nested(o, key)
+    if kind == "same" and cur is not KeyError:
+        return key, copy.deepcopy(cur)
+    differs = lambda v: cur is KeyError or enc(v) != enc(cur)
+    return key, rng.choice([v for v in vals if differs(v)] or [v for v in EDIT_VALUES if differs(v)])
+
+
+def order_label(fc, seq):
+    x, y = seq[0], seq[-1]
+    if len(set(seq)) > 2:
+        return "chain-base-first" if seq[0] == 0 else "chain-derived-first"
+    rel = "base-first" if x in ancestors(fc, y) else "derived-first" if y in ancestors(fc, x) else "siblings"
+    return ("alternating-" if len(seq) > 2 else "") + rel
+
+
+def make_history(rng, fc, seq, dicts, opa, rot, pool, vals):
+    """seq: the classes visited; one operation on each of seq[:-1] (starting with HOPS[opa]), then all four operations on
+    seq[-1] (starting with HOPS[rot]), then a second instance of seq[-1] from different contents, ==, and both reprs.
+    dicts: fresh | shared (two dictionary objects: one for everything, one for the second instance) |
+           shared-edited | fresh-edited (ONE dictionary, edited in place between the calls)"""
+    y = seq[-1]
+    allkeys = sorted({k for c in range(len(fc["classes"])) for k in fam_keys(fc, c)})
+    o0 = copy.deepcopy(rng.choice(pool))
+    ops = []
+    cur = copy.deepcopy(o0)        # contents of slot 0 as the history goes
+
+    def edit(kind):
+        key, v = pick_edit(rng, fc, seq, kind, cur, allkeys, vals)
+        set_nested(cur, key, copy.deepcopy(v))
+        return {"op": "set", "s": 0, "key": key, "v": enc(v)}
+
+    edited = dicts.endswith("edited")
+    plan = rng.randrange(4) if edited else None
+    at = rng.randrange(1, len(seq)) if edited else None     # the first edit comes after this many operations
+    for i, x in enumerate(seq[:-1]):
+        if edited and i == at:
+            ops += first_edit(rng, plan, edit, cur, fc, seq, allkeys, vals)
+        op = {"op": HOPS[(opa + i) % 4], "c": x, "s": 0}
+        if op["op"] == "inst":
+            op["r"] = "p%d" % i
+        ops.append(op)
+    if edited and at == len(seq) - 1:
+        ops += first_edit(rng, plan, edit, cur, fc, seq, allkeys, vals)
+    for j in range(4):
+        op = {"op": HOPS[(rot + j) % 4], "c": y, "s": 0}
+        if op["op"] == "inst":
+            op["r"] = "ra"
+        ops.append(op)
+    kind2 = rng.choice(["added", "added", "base", "irrelevant", "same"])
+    slots = [enc(o0)]
+    if edited:
+        ops.append(edit(kind2))
+        ops.append({"op": "inst", "c": y, "s": 0, "r": "rb"})
+    else:
+        key, v = pick_edit(rng, fc, seq, kind2, o0, allkeys, vals)
+        o1 = copy.deepcopy(o0)
+        set_nested(o1, key, v)
+        if kind2 == "same" and rng.random() < 0.5:
+            o1 = reorder(rng, o1)
+        slots.append(enc(o1))
+        ops.append({"op": "inst", "c": y, "s": 1, "r": "rb"})
+    ops += [{"op": "eq", "a": "ra", "b": "rb"}, {"op": "repr", "r": "ra"}, {"op": "repr", "r": "rb"}]
+    h = dict(fc)
+    h.update({"hist": True, "mode": "shared" if dicts.startswith("shared") else "fresh", "dicts": dicts, "slots": slots,
+              "ops": ops, "seq": list(seq), "order": order_label(fc, seq), "second": kind2,
+              "first_ops": [HOPS[opa], HOPS[rot]]})
+    if edited:
+        h["edit_plan"] = ["set", "set-and-revert", "delete-and-put-back", "none-before-last-class"][plan]
+    return h
+
+
+def first_edit(rng, plan, edit, cur, fc, seq, allkeys, vals):
+    """the in-place edits made between the operations on the earlier classes and those on the last one"""
+    if plan == 0:
+        return [edit(rng.choice(["added", "base", "irrelevant"]))]
+    if plan == 1:        # changed and changed back: equal contents again, the same object
+        before = copy.deepcopy(cur)
+        e = edit(rng.choice(["added", "base"]))
+        old = get_nested(before, e["key"])
+        if old is KeyError:
+            del_nested(cur, e["key"])
+            return [e, {"op": "del", "s": 0, "key": e["key"]}]
+        set_nested(cur, e["key"], copy.deepcopy(old))
+        return [e, {"op": "set", "s": 0, "key": e["key"], "v": enc(old)}]
+    if plan == 2:        # deleted and put back: equal contents, another insertion order
+        key, _ = pick_edit(rng, fc, seq, rng.choice(["added", "base"]), cur, allkeys, vals)
+        old = get_nested(cur, key)
+        if old is KeyError:
+            return []
+        del_nested(cur, key)
+        set_nested(cur, key, copy.deepcopy(old))
+        return [{"op": "del", "s": 0, "key": key}, {"op": "set", "s": 0, "key": key, "v": enc(old)}]
+    return []
+
+
+def family_sequences(fc, thorough, flip):
+    n = len(fc["classes"])
+    seqs = [[x, y] for x, y in itertools.permutations(range(n), 2)]
+    for x, y in itertools.combinations(range(n), 2):
+        if thorough:
+            seqs += [[x, y, x, y], [y, x, y, x]]
+        else:
+            seqs.append([x, y, x, y] if (x + y + flip) % 2 == 0 else [y, x, y, x])
+    if n >= 3:
+        seqs += [list(range(n)), list(range(n))[::-1]]
+    return seqs
+
+
+def make_histories(ctx):
+    """the directed family: deterministic given the seed; every tier runs it"""
+    rng = random.Random(ctx.seed * 1000003 + 19)
+    thorough = ctx.tier == "thorough"
+    if thorough:
+        fams = fixed_families(lambda i: range(4))
+        fams += [gen_family(rng, sh, n) for n in range(5) for sh in SHAPES]
+        modes = ["fresh", "shared", "shared-edited", "fresh-edited"]
+    else:
+        fams = fixed_families(lambda i: [(i + ctx.seed) % 4])
+        fams += [gen_family(rng, sh, 0) for sh in SHAPES]
+        modes = ["fresh", "shared", "shared-edited"]
+    deck = list(itertools.product(range(4), range(4)))     # (first operation on the earlier class, on the last class)
+    rng.shuffle(deck)
+    hists, t = [], 0
+    for fi, fc in enumerate(fams):
+        # a family's histories start from a few dictionaries and edit with a few values: they meet the same contents again
+        # and again, in different histories (and share the fresh-family references, computed once per contents)
+        allkeys = sorted({k for c in range(len(fc["classes"])) for k in fam_keys(fc, c)})
+        pool = [full_options(rng, allkeys), full_options(rng, allkeys), gen_options(rng, allkeys)]
+        pool = pool[:2] + pool[:2] + pool
+        vals = rng.sample(EDIT_VALUES, 3)
+        for seq in family_sequences(fc, thorough, fi + ctx.seed):
+            for dicts in modes:
+                combos = deck if (thorough and fc["name"].startswith("fixed") and len(seq) == 2) else [deck[t % 16]]
+                for opa, rot in combos:
+                    hists.append(make_history(rng, fc, seq, dicts, opa, rot, pool, vals))
+                t += 1
+    return fams, hists
+
+
+def hist_model_members(fc, c):
+    return [[n, s] for n, (s, _) in fam_flatten(fc, c).items()]
+
+
+def hist_model_requests(fc, res):
+    """(class, contents a, contents b) the model is asked about, per step"""
+    reqs = []
+    for st in res["steps"]:
+        if st["k"] in ("set", "del") or st.get("si") is None:
+            reqs.append(None)
+        elif st["k"] == "eq":
+            reqs.append((st["c"], st["si"], st["sib"]) if st["c"] == st.get("cb") and st.get("sib") is not None else None)
+        else:
+            reqs.append((st["c"], st["si"], st["si"]))
+    return reqs
+
+
+def hist_model_line(fc, res, req):
+    c, a, b = req
+    return json.dumps({"name": fc["classes"][c]["name"], "members": hist_model_members(fc, c),
+                       "o1": res["snaps"][a], "o2": res["snaps"][b]}, sort_keys=True)
+
+
+def hist_check(fc, res, model_of=None):
+    """-> (problems, model_disagreements); a problem is (step, oracle, text).  `model_of(line) -> model output or None`"""
+    if "runner_error" in res:
+        return [(None, "runner", "runner error: " + res["runner_error"])], []
+    problems, disagreements = [], []
+    ops = [o for o in fc["ops"]]
+    reqs = hist_model_requests(fc, res)
+    cname = lambda c: fc["classes"][c]["name"]
+
+    def member_outs(c, si, what):
+        eff = fam_flatten(fc, c)
+        vis = [n for n, (s, _) in eff.items() if s["k"] != "const" and not n.startswith("__")]
+        return vis, [res["mem"][si]["%d:%s" % (eff[n][1], n)][what] for n in vis]
+
+    def union_keys(c, si):
+        _, outs = member_outs(c, si, "keys")
+        if all(isinstance(x, list) for x in outs):
+            return sorted(set().union(*map(set, outs))) if outs else []
+        return None
+
+    def restricted(c, si):
+        ks = union_keys(c, si)
+        if ks is None:
+            return None
+        try:
+            return restrict(dec(res["snaps"][si]), ks)
+        except KeyError:
+            return None
+
+    def check_repr(i, c, si, r, what):
+        R = restricted(c, si)
+        if R is None or r is None:
+            return
+        shown = None
+        head = cname(c) + "("
+        if r.startswith(head) and r.endswith(")"):
+            try:
+                shown = ast.literal_eval(r[len(head):-1])
+            except Exception:
+                shown = None
+        if shown is None or shown != R:
+            problems.append((i, "property", f"{what} is {r!r}; the options restricted to the keys of {cname(c)}'s own members "
+                                            f"({union_keys(c, si)}) are {R!r}"))
+
+    for i, (op, st) in enumerate(zip(ops, res["steps"])):
+        k = st["k"]
+        if k in ("set", "del"):
+            continue
+        c = st["c"]
+        if c is None:
+            continue
+        call = {"keys": "%s.keys(o)", "explain": "%s.explain(o)", "validate": "%s.validate(o)", "inst": "%s(o)",
+                "repr": "repr of the %s instance", "eq": "== of two %s instances"}[k] % cname(c)
+        got, ref = st["got"], st["ref"]
+        # 1. history independence
+        if got != ref:
+            problems.append((i, "history", f"step {i}: {call} gives {json.dumps(got)} at this point of the history, but "
+                                           f"{json.dumps(ref)} when it is the first thing done with a freshly built family and a "
+                                           f"fresh dictionary of equal contents"))
+        if st.get("mut"):
+            problems.append((i, "property", f"step {i}: {call} changed the dictionary it was given"))
+        # 2. the property, from the class's own members asked alone
+        si = st["si"]
+        if k in ("keys", "explain"):
+            _, outs = member_outs(c, si, k)
+            if all(isinstance(x, list) for x in outs):
+                want = sorted(set().union(*map(set, outs))) if outs else []
+                if got != want:
+                    problems.append((i, "property", f"step {i}: {call} = {got} is not the union over {cname(c)}'s own members = {want}"))
+            elif not is_err(got):
+                problems.append((i, "property", f"step {i}: {call} succeeds ({got}) although a member's {k} fails"))
+        elif k == "validate":
+            vis, outs = member_outs(c, si, "validate")
+            if all(v == "ok" for v in outs) != (got == "ok"):
+                problems.append((i, "property", f"step {i}: {call} = {got} but the members' validate = {dict(zip(vis, outs))}"))
+        elif k == "inst":
+            eff = fam_flatten(fc, c)
+            vis, evs = member_outs(c, si, "ev")
+            if not is_err(got):
+                attrs = dict((n, v) for n, v in got["attrs"])
+                for n, (s, _) in eff.items():
+                    if s["k"] == "const":
+                        if attrs.get(n) != s["v"]:
+                            problems.append((i, "property", f"step {i}: plain member {n} of {call} is {attrs.get(n)}, constant is {s['v']}"))
+                    elif not n.startswith("__"):
+                        ev = evs[vis.index(n)]
+                        if is_err(ev) or attrs.get(n) != ev["ok"]:
+                            problems.append((i, "property", f"step {i}: attribute {n} of {call} is {attrs.get(n)}, member evaluates to {ev}"))
+                check_repr(i, c, si, got["repr"], f"step {i}: repr({call})")
+            elif all(not is_err(e) for e in evs) and union_keys(c, si) is not None:
+                problems.append((i, "property", f"step {i}: {call} fails with {got['err']} although every member evaluates"))
+        elif k == "repr":
+            check_repr(i, c, si, got, f"step {i}: {call} (register {op['r']})")
+        elif k == "eq" and got is not None and st.get("cb") == c and st.get("sib") is not None:
+            Ra, Rb = restricted(c, si), restricted(c, st["sib"])
+            if Ra is not None and Rb is not None:
+                if got["eq"] != (Ra == Rb):
+                    problems.append((i, "property", f"step {i}: a == b is {got['eq']} for two {cname(c)} instances whose options restricted "
+                                                    f"to {cname(c)}'s keys are {Ra!r} and {Rb!r}"))
+                if got["ne"] != (not got["eq"]):
+                    problems.append((i, "property", f"step {i}: a != b is {got['ne']} while a == b is {got['eq']}"))
+        # 3. the model
+        if model_of is not None and reqs[i] is not None:
+            m = model_of(hist_model_line(fc, res, reqs[i]))
+            if m is None:
+                continue
+            if "driver_error" in m:
+                disagreements.append((i, "driver rejected the class: " + m["driver_error"]))
+                continue
+            if k == "eq":
+                mg = m["eq"]
+                ig = None if got is None else got["eq"]
+            elif k == "repr":
+                mg = None if is_err(m["i1"]) else m["i1"]["repr"]
+                ig = got
+            else:
+                mg = m[{"keys": "keys1", "explain": "explain1", "validate": "validate1", "inst": "i1"}[k]]
+                ig = got
+            if mg != ig:
+                disagreements.append((i, f"step {i}: {call}: implementation {json.dumps(ig)}, model {json.dumps(mg)}"))
+    return problems, disagreements
+
+
+def hist_shrink_candidates(h):
+    out = []
+    for i, op in enumerate(h["ops"]):
+        c = copy.deepcopy(h)
+        gone = {op.get("r")} - {None}
+        c["ops"] = [o for j, o in enumerate(c["ops"]) if j != i and not ({o.get("r") if o["op"] == "repr" else None,
+                                                                         o.get("a"), o.get("b")} & gone)]
+        out.append(c)
+    used = {o["c"] for o in h["ops"] if "c" in o}
+    parents = {cl["parent"] for cl in h["classes"]}
+    last = len(h["classes"]) - 1
+    if last > 0 and last not in used and last not in parents:
+        c = copy.deepcopy(h); del c["classes"][last]; out.append(c)
+    for ci, cl in enumerate(h["classes"]):
+        for mi in range(len(cl["own"])):
+            c = copy.deepcopy(h); del c["classes"][ci]["own"][mi]; out.append(c)
+        for mi, m in enumerate(cl["own"]):
+            if m[1]["k"] == "opt" and "d" in m[1]:
+                c = copy.deepcopy(h); del c["classes"][ci]["own"][mi][1]["d"]; out.append(c)
+            if m[1]["k"] == "ds":
+                for a in range(len(m[1]["args"])):
+                    c = copy.deepcopy(h); del c["classes"][ci]["own"][mi][1]["args"][a]; out.append(c)
+    if h.get("build") != "type":
+        c = copy.deepcopy(h); c["build"] = "type"; out.append(c)
+    if len(h["slots"]) > 1 and not any(o.get("s") == len(h["slots"]) - 1 for o in h["ops"]):
+        c = copy.deepcopy(h); del c["slots"][-1]; out.append(c)
+    for si, s in enumerate(h["slots"]):
+        o = dec(s)
+        for p in paths_of(o):
+            o2 = copy.deepcopy(o)
+            del_nested(o2, p)
+            c = copy.deepcopy(h); c["slots"][si] = enc(o2); out.append(c)
+    return out
+
+
+def hist_failing(hs):
+    return [bool(hist_check(h, r)[0]) for h, r in zip(hs, run_impl(hs))]
+
+
+def hist_shrink(h, rounds=40):
+    for _ in range(rounds):
+        cands = hist_shrink_candidates(h)
+        if not cands:
+            break
+        nxt = next((c for c, f in zip(cands, hist_failing(cands)) if f), None)
+        if nxt is None:
+            break
+        h = nxt
+    return h
+
+
+def hist_samples(fc, res):
+    """a history written out: the operations with the outcome observed"""
+    out = []
+    for op, st in zip(fc["ops"], res["steps"]):
+        d = dict(op)
+        if "c" in d:
+            d["c"] = fc["classes"][d["c"]]["name"]
+        if "got" in st:
+            g = st["got"]
+            d["outcome"] = g["repr"] if isinstance(g, dict) and "repr" in g else g
+        out.append(d)
+    return out
+
+
+def replay_history(ctx, payload) -> int:
+    h = payload["history"]
+    err = lean_build(["drv_dsclass"])
+    if err:
+        print("cannot build drv_dsclass:", err[-500:])
+        return 2
+    res = run_impl([h])[0]
+    if "runner_error" in res:
+        print("runner error:", res["runner_error"])
+        return 2
+    lines = sorted({hist_model_line(h, res, q) for q in hist_model_requests(h, res) if q is not None})
+    mout = dict(zip(lines, [json.loads(l) for l in run_driver("drv_dsclass", lines)])) if lines else {}
+    problems, disagreements = hist_check(h, res, mout.get)
+    print("family   :", h.get("name"), "(build: %s)" % h.get("build"))
+    for i, cl in enumerate(h["classes"]):
+        par = "" if cl["parent"] is None else "(%s)" % h["classes"][cl["parent"]]["name"]
+        print("  class %s%s%s: own members %s" % (cl["name"], par, "" if cl["deco"] else " [not decorated again]",
+                                                 [[m[0], m[1]] for m in cl["own"]]))
+    print("dicts    :", h.get("dicts", h["mode"]), "-", "one dictionary object per slot, reused by every call" if h["mode"] == "shared"
+          else "a fresh dictionary object of the slot's current contents for every call")
+    for si, s in enumerate(h["slots"]):
+        print("  slot %d  : %r" % (si, dec(s)))
+    reqs = hist_model_requests(h, res)
+    for i, (op, st) in enumerate(zip(h["ops"], res["steps"])):
+        d = dict(op)
+        if "c" in d:
+            d["c"] = h["classes"][d["c"]]["name"]
+        if "v" in d:
+            d["v"] = dec(d["v"])
+        print("step %-2d  : %s" % (i, json.dumps(d)))
+        if "got" in st:
+            print("   here  :", json.dumps(st["got"], sort_keys=True))
+            print("   first :", json.dumps(st["ref"], sort_keys=True), " (same operation first thing on a fresh family, fresh dictionary)")
+    for _, orc, p in problems:
+        print(("HISTORY  :" if orc == "history" else "PROPERTY :"), p)
+    for _, p in disagreements:
+        print("DIFFERS  :", p)
+    if problems or disagreements:
+        print("verdict  : still failing")
+        return 1
+    print("verdict  : passes")
+    return 0
+
+
 # ----------------------------------------------------------------------------- explore
 
 def nontrivial(case, res):
@@ -759,9 +1495,19 @@ def known_ids():
 
 def explore(ctx: Ctx) -> Exploration:
     cases, n_corpus, n_exh, n_random = make_cases(ctx)
-    impl = run_impl(cases)
-    model = run_model(cases)
+    fams, hists = make_histories(ctx)
+    # one implementation process and one model process for the cases and the histories together
+    impl_all = run_impl(cases + hists)
+    impl, himpl = impl_all[:len(cases)], impl_all[len(cases):]
+    hlines = sorted({hist_model_line(h, r, q) for h, r in zip(hists, himpl) if "runner_error" not in r
+                     for q in hist_model_requests(h, r) if q is not None})
+    mlines = run_driver("drv_dsclass", [model_line(c) for c in cases] + hlines)
+    if len(mlines) != len(cases) + len(hlines):
+        raise Infra(f"driver produced {len(mlines)} lines for {len(cases) + len(hlines)} cases")
+    model = [json.loads(l) for l in mlines[:len(cases)]]
+    hmodel = dict(zip(hlines, (json.loads(l) for l in mlines[len(cases):])))
     findings = []
+    hcov = explore_histories(ctx, fams, hists, himpl, hmodel, findings)
     corr, orc = [], []
     dist = Counter()
     errs = Counter()
@@ -824,19 +1570,95 @@ def explore(ctx: Ctx) -> Exploration:
         samples.append({"members": flatten(c), "o1": dec(c["o1"]), "o2": dec(c["o2"]), "eq": i["obs"]["eq"],
                         "repr1": None if is_err(i["obs"]["i1"]) else i["obs"]["i1"]["repr"]})
     cov = {
-        "evaluations": len(cases),
+        "evaluations": len(cases) + len(hists),
+        "cases": len(cases),
+        "histories": hcov,
         "programs": len({json.dumps([flatten(c), c["build"], c["inherit"], bool(c["base"])], sort_keys=True) for c in cases}),
         "distinct_nontrivial": len(distinct),
         "rule": "distinct (members, o1, o2) where both instances were built and a nested (dotted) key is reported",
         "disagreements_checked": len(cases),
-        "correspondence_disagreements": len(corr),
-        "oracle_failures": len(orc),
+        "correspondence_disagreements": len(corr) + hcov["model_disagreements"],
+        "oracle_failures": len(orc) + hcov["failing"],
         "corpus": n_corpus, "exhaustive_cases": n_exh, "random": n_random,
         "out_of_scope_candidates": len(candidates),
         "samples": samples,
         "distribution": {"generated": dict(sorted(dist.items())), "errors_hit": dict(sorted(errs.items()))},
     }
     return Exploration(findings, cov)
+
+
+def explore_histories(ctx, fams, hists, himpl, hmodel, findings):
+    """decide every history; -> the counts recorded under coverage.histories"""
+    bad, corr = [], []
+    dist = Counter()
+    pairs = {}
+    distinct = set()
+    n_ops = n_edits = n_refs = n_err = 0
+    for h, r in zip(hists, himpl):
+        if "runner_error" in r:
+            findings.append(Finding("translator", "implementation runner could not run the history: " + r["runner_error"],
+                                    {"history": h}))
+            continue
+        problems, disagreements = hist_check(h, r, hmodel.get)
+        if problems:
+            bad.append((h, r, problems))
+        elif disagreements:
+            corr.append((h, r, disagreements))
+        n_refs += r["new_refs"]
+        dist["shape:" + h["shape"]] += 1
+        dist["order:" + h["order"]] += 1
+        dist["dicts:" + h["dicts"]] += 1
+        dist["second-instance:" + h["second"]] += 1
+        dist["derived:" + ("decorated" if h["classes"][-1]["deco"] else "plain-subclass")] += 1
+        dist["build:" + h["build"]] += 1
+        if "edit_plan" in h:
+            dist["edits:" + h["edit_plan"]] += 1
+        pairs.setdefault(h["dicts"], set()).add(tuple(h["first_ops"]))
+        for op, st in zip(h["ops"], r["steps"]):
+            dist["op:" + op["op"]] += 1
+            if op["op"] in ("set", "del"):
+                n_edits += 1
+            else:
+                n_ops += 1
+                if is_err(st.get("got")):
+                    n_err += 1
+        touched = {tuple(fam_keys(h, o["c"])) for o in h["ops"] if "c" in o}
+        eqs = [st for st in r["steps"] if st["k"] == "eq"]
+        if len(touched) > 1 and eqs and all(st["got"] is not None for st in eqs):
+            distinct.add(json.dumps([h["classes"], h["build"], h["mode"], h["slots"], h["ops"]], sort_keys=True))
+    for n, (h, r, problems) in enumerate(bad[:10]):
+        small, sr, sp = h, r, problems
+        if n < 2:
+            small = hist_shrink(h)
+            sr = run_impl([small])[0]
+            sp = hist_check(small, sr)[0] or problems
+        findings.append(Finding("failing-input", sp[0][2], {"history": small, "steps": sr.get("steps"),
+                                                            "problems": [p[2] for p in sp], "original_history": h}))
+    for h, r, disagreements in corr[:10]:
+        findings.append(Finding("correspondence", "history: model and implementation disagree: " + disagreements[0][1],
+                                {"history": h, "steps": r.get("steps"), "disagreements": [d[1] for d in disagreements]}))
+    sample = None
+    for h, r in zip(hists, himpl):
+        if "runner_error" not in r and h["dicts"] == "shared-edited" and len(h["classes"]) >= 3:
+            sample = {"family": h["name"], "classes": [[c["name"], c["parent"], [[m[0], m[1]] for m in c["own"]]] for c in h["classes"]],
+                      "order": h["order"], "dicts": h["dicts"], "slot0": dec(h["slots"][0]), "history": hist_samples(h, r)}
+            break
+    return {
+        "what": "histories of keys / validate / explain / instantiate / repr / == over a family of related dataset classes "
+                "(base, derived adding / redefining members, two levels, siblings), interleaved in every order, with fresh "
+                "dictionaries, with one dictionary object reused unchanged, and with one dictionary edited in place between "
+                "the calls; every step is compared with the same operation done first on a freshly built family with a fresh "
+                "dictionary of equal contents, with the union over the class's own members, and with the model",
+        "families": len(fams), "histories": len(hists), "operations": n_ops, "in_place_edits": n_edits,
+        "fresh_family_references": n_refs, "model_lines": len(hmodel), "error_outcomes": n_err,
+        "distinct_nontrivial": len(distinct),
+        "rule": "distinct (family, dictionaries, operations) that operate on classes with different key sets and build both "
+                "compared instances",
+        "first_operation_pairs_covered": {m: "%d/16" % len(v) for m, v in sorted(pairs.items())},
+        "failing": len(bad), "model_disagreements": len(corr),
+        "distribution": dict(sorted(dist.items())),
+        "sample": sample,
+    }
 
 
 def failing_input_search(ctx, why):
@@ -858,6 +1680,8 @@ def failing_input_search(ctx, why):
 
 
 def replay(ctx, payload) -> int:
+    if "history" in payload:
+        return replay_history(ctx, payload)
     case = payload["case"]
     err = lean_build(["drv_dsclass"])
     if err:
